@@ -131,3 +131,21 @@ fn yaml_output_value_framing_ok() { yaml_framing_value(99); }
 #[kani::unwind(6)]
 #[kani::stub(serde_yaml::to_writer, yaml_to_writer_stub)]
 fn yaml_output_value_framing_separator_write_fails() { yaml_framing_value(2); }
+
+/// The same obligation as yaml_slice_fast_path_requires_utf8, modular: Encoding::detect is replaced by its
+/// verified function contract (kani::stub_verified), so yaml::transcode is checked against the CONTRACT of the
+/// detector, not its body.
+#[kani::proof]
+#[kani::unwind(6)]
+#[kani::stub(serde_yaml::Deserializer::from_str, from_str_contract)]
+#[kani::stub(transcode_reader, transcode_reader_stub)]
+#[kani::stub_verified(Encoding::detect)]
+fn yaml_slice_fast_path_modular() {
+	let b: [u8; 4] = kani::any();
+	let n: usize = kani::any();
+	kani::assume(n <= 4);
+	let r = transcode(input::Handle::from_slice(&b[..n]), NoOutput);
+	assert!(unsafe { READER_PATH });
+	assert!(r.is_ok());
+	std::mem::forget(r);
+}
